@@ -113,6 +113,7 @@ def closedJson (env : Validate.Env) (j : Json) : Except String Json := do
   let excl ← (← getArr j "excluded").mapM asStr
   let types ← (← getArr j "types").mapM asStr
   let cfw := getBoolD j "cfw" false
+  let defsModelled := getBoolD j "defs_modelled" false
   let k ← Closed.rawConsts j
   let tabs ← (← getArr j "tables").mapM fun e => match e with
     | Json.arr #[p, h, rs] => do
@@ -130,7 +131,12 @@ def closedJson (env : Validate.Env) (j : Json) : Except String Json := do
   | .ok gs =>
     let sideJson (g : Group SJson) (s : PFile SJson) : Json × Bool :=
       let head := [("path", Json.str (pathStr s.path)), ("kind", Json.str "sidecar")]
-      let why := if loadIssueCount g s == 0 then Closed.sidecarUnmodelled env .fixed (.obj (mergeImpl g s)) else none
+      -- the checks run against the document's own definitions followed by the external ones (as `closed.c08`)
+      let doc : SJson := .obj (mergeImpl g s)
+      let envS := HedVerif.Closed.envWith env (HedVerif.Closed.sidecarDict env .fixed doc)
+      let why := if loadIssueCount g s == 0 then
+          (if defsModelled then Closed.sidecarUnmodelled envS .fixed doc true else Closed.sidecarUnmodelled env .fixed doc false)
+        else none
       match why with
       | some w => (jobj (head ++ [("unmodelled", Json.str w)]), true)
       | none => match sidecarClosed env g s with
@@ -143,16 +149,17 @@ def closedJson (env : Validate.Env) (j : Json) : Except String Json := do
       let t := raw.table d.path
       let skip (w : String) : Json × Bool := (jobj (head ++ [("unmodelled", Json.str w)]), true)
       if !Raw.headerOk t.header then skip "header"
-      else if Raw.declaresDefinition sc then skip "definition in the sidecar"
+      else if !defsModelled && Raw.declaresDefinition sc then skip "definition in the sidecar"
       else if Raw.onsetUnmodelled t then skip "onset spelling"
       else if Raw.refOrderMatters sc t then skip "reference set order"
       else
         let (cfg, T) := F d (sidecarOf g d)
-        match HedVerif.Closed.skipReason env kB cfg T with     -- consulted texts of the CLOSED configuration, tie-sensitive tables
+        let envF := fileEnv env (sidecarOf g d)      -- the merged sidecar's definitions, then the external ones
+        match HedVerif.Closed.skipReason envF kB cfg T with     -- consulted texts of the CLOSED configuration, tie-sensitive tables
         | some (w, _) => skip w
         | none =>
-          if T.any (HedVerif.Closed.rowSplit env kB cfg) then skip "malformed cell in a checked row"
-          else match tableClosed env kB F g d with     -- = `Tabular.validateClosedRaw` (`C16.raw_table_step`)
+          if T.any (HedVerif.Closed.rowSplit envF kB cfg) then skip "malformed cell in a checked row"
+          else match tableClosed env kB F g d with     -- = `Tabular.validateClosedRawD` (`C16.raw_table_step`)
             | .ok is => (jobj (head ++ [("issues", jarr (is.map tissueJson))]), false)
             | .error e => (jobj (head ++ [("raise", Json.str (C07.excName e))]), false)
     let per := gs.flatMap fun g => g.sidecars.map (sideJson g) ++ g.datafiles.map (tabJson g)
